@@ -279,6 +279,80 @@ def oracle_history(cls, init, ops):
     return None
 
 
+# ---------------------------------------------------------------- GetDict: write-back and refused writes
+def cgop(o):
+    if o[0] == "badadd":
+        return "(GBadAdd %s)" % cstr(o[1])
+    return "(GOk %s)" % cop(o)
+
+
+def _qs_pairs(env):
+    from urllib.parse import parse_qsl
+    return [list(kv) for kv in parse_qsl(env.get("QUERY_STRING", ""), keep_blank_values=True)]
+
+
+def _gd_new(init):
+    from urllib.parse import urlencode
+    from webob.multidict import GetDict
+    env = {"QUERY_STRING": urlencode(list(init))}
+    return GetDict(list(init), env), env
+
+
+def _gd_apply(d, o):
+    if o[0] == "badadd":
+        return catch(d.add, o[1], None)
+    return apply_op(d, o)[1]
+
+
+def run_getdict_impl(init, ops):
+    d, env = _gd_new(init)
+    out = []
+    for o in ops:
+        r = _gd_apply(d, o)
+        out.append([r, [[list(kv) for kv in d.items()], _qs_pairs(env)]])
+    return out
+
+
+def oracle_getdict(init, ops):
+    """Statement on the real GetDict: an operation that raises changes nothing; otherwise the list model; and
+    QUERY_STRING always decodes to the items."""
+    d, env = _gd_new(init)
+    ref = Ref(init, lambda k: k)
+    for i, o in enumerate(ops):
+        before = [list(kv) for kv in d.items()]
+        r = _gd_apply(d, o)
+        now = [list(kv) for kv in d.items()]
+        if isinstance(r, Err):
+            if now != before:
+                return "step %d %r raised %s but req.GET changed from %r to %r" % (i, o, r, before, now)
+            if o[0] != "badadd":
+                rr = ref.apply(o)
+                if rr != r:
+                    return "step %d %r raised %s, list model says %r" % (i, o, r, rr)
+        else:
+            rr = ref.apply(o)
+            if r != rr:
+                return "step %d %r returned %r, list model says %r" % (i, o, r, rr)
+        if now != [list(kv) for kv in ref.l]:
+            return "step %d %r: req.GET holds %r, the list model %r" % (i, o, now, [list(kv) for kv in ref.l])
+        if _qs_pairs(env) != now:
+            return "step %d %r: QUERY_STRING decodes to %r but req.GET holds %r" % (i, o, _qs_pairs(env), now)
+    return None
+
+
+def rand_gd_history(rng, maxlen):
+    init, ops = rand_history(rng, maxlen)
+    ops = [o for o in ops if o[0] not in ("copy", "extend_self")]
+    out = []
+    for o in ops:
+        out.append(o)
+        if rng.random() < 0.25:
+            out.append(("badadd", rng.choice(KEYS)))
+    if rng.random() < 0.5:
+        out.insert(rng.randrange(len(out) + 1), ("badadd", rng.choice(KEYS)))
+    return init, out
+
+
 # ---------------------------------------------------------------- generators
 def op_universe():
     u = []
@@ -594,7 +668,11 @@ MODELLED = [
     "webob.headers:ResponseHeaders", "webob.response:Response._headerlist__get", "webob.response:Response._headerlist__set",
     "webob.response:Response._headerlist__del", "webob.response:Response._headers__get", "webob.response:Response._headers__set",
 ]
-ORACLE_ONLY = ["webob.multidict:NoVars", "webob.multidict:GetDict"]
+MODELLED += ["webob.multidict:GetDict.on_change", "webob.multidict:GetDict.__setitem__", "webob.multidict:GetDict.add",
+             "webob.multidict:GetDict.__delitem__", "webob.multidict:GetDict.clear", "webob.multidict:GetDict.setdefault",
+             "webob.multidict:GetDict.pop", "webob.multidict:GetDict.popitem", "webob.multidict:GetDict.update",
+             "webob.multidict:GetDict.extend"]
+ORACLE_ONLY = ["webob.multidict:NoVars", "webob.multidict:GetDict.copy", "webob.multidict:GetDict.__repr__"]
 
 
 def run(ctx):
@@ -647,6 +725,30 @@ def run(ctx):
             ctx.fail("nested-concat", msg, case, True, "corr")
         else:
             ctx.broken.append("correspondence nested: model and implementation disagree on %s" % json.dumps(case))
+
+    # ---- GetDict: write-back and refused writes (model C08_GetDict.v) vs the real class
+    cases = []
+    for _ in range(n):
+        init, ops = rand_gd_history(rng, maxlen)
+        out = run_getdict_impl(init, ops)
+        cases.append((cpair(citems(init), clist(cgop(o) for o in ops)), out, {"class": "getdict", "init": init, "ops": ops}))
+    bad = ctx.corr("getdict", IMPORTS + ["Webob.Model.C08_GetDict"], "(fun c => run_getdict (fst c) (snd c))", cases,
+                   in_type="(items * list gop)")
+    for i in bad[:5]:
+        case = cases[i][2]
+        msg = oracle_getdict(case["init"], case["ops"])
+        if msg:
+            ctx.fail("getdict:write-back", msg, case, True, "corr")
+        else:
+            ctx.broken.append("correspondence getdict: model and implementation disagree on %s" % json.dumps(case))
+    r5 = ctx.sub_rng("oracle-getdict")
+    m5 = ctx.scale(3000, 40000)
+    for _ in range(m5):
+        init, ops = rand_gd_history(r5, 30)
+        msg = oracle_getdict(init, ops)
+        if msg:
+            ctx.fail("getdict:write-back", msg, {"class": "getdict", "init": init, "ops": ops}, True)
+    ctx.oracle_count("getdict-writeback", m5, m5)
 
     # ---- oracle: the list model against the implementation, exhaustive small histories then random deeper
     U = op_universe()
@@ -723,6 +825,9 @@ def replay(ctx, path):
         ops = [tuple(tuple(x) if isinstance(x, list) and x and isinstance(x[0], str) and False else x for x in o) for o in case["ops"]]
         ops = [tuple([o[0]] + [[tuple(p) for p in a] if isinstance(a, list) else a for a in o[1:]]) for o in case["ops"]]
         msg = oracle_history(cls, [tuple(p) for p in case["init"]], ops)
+    elif cls == "getdict":
+        ops = [tuple([o[0]] + [[tuple(p) for p in a] if isinstance(a, list) else a for a in o[1:]]) for o in case["ops"]]
+        msg = oracle_getdict([tuple(p) for p in case["init"]], ops)
     elif cls == "response":
         def fix(o):
             if o[0] == "via":
